@@ -918,10 +918,14 @@ func (s *Sim) genEvmTx(deploy bool) *TxSpec {
 		return t
 	}
 	c := s.contracts[r.Intn(len(s.contracts))]
+	s.watchAddr(make([]byte, 20)) // calls without data make the programs use address 0
 	switch r.Intn(5) {
 	case 0, 1:
 		t := s.baseTx(6, from, c)
-		arg := word(big.NewInt(int64(r.Intn(50))).Bytes())
+		small := make([]byte, 20)
+		small[19] = byte(r.Intn(50))
+		arg := word(small)
+		s.watchAddr(small) // a program may send value there: every touched account is watched
 		if r.Intn(2) == 0 {
 			arg = word(s.pick(s.all).Addr)
 		}
